@@ -584,7 +584,10 @@ theorem inv_resume {s : State} (h : Inv s) {i : Nat} (hc : s.cur = none)
     have hdef : s.doResume i =
         (let s1 := rs1 s i k
          let s2 := if resumeExc (s.tasks i) then s1 else s1.takeLock k i
-         if (s2.locks k).locked then s2 else s2.wakeUpFirst k) := by
+         if (s2.locks k).locked then
+           (if resumeExc (s.tasks i) then
+              (match (s2.locks k).owner with | some o => propT s2 s2.fuel o | none => s2) else s2)
+         else s2.wakeUpFirst k) := by
       simp only [State.doResume, hpos]; rfl
     rw [hdef]
     generalize hs1 : rs1 s i k = s1
@@ -667,10 +670,14 @@ theorem inv_resume {s : State} (h : Inv s) {i : Nat} (hc : s.cur = none)
     · simp only [hexc, if_true]
       by_cases hl : (s1.locks k).locked = true
       · simp only [hl, if_true]
-        refine Inv.mk' (fun k' => ?_) hg
-        by_cases e : k' = k
-        · rw [e]; exact hk0.toLInv (fun x => by rw [hl] at x; cases x)
-        · exact hko k' e
+        have hI1 : Inv s1 := by
+          refine Inv.mk' (fun k' => ?_) hg
+          by_cases e : k' = k
+          · rw [e]; exact hk0.toLInv (fun x => by rw [hl] at x; cases x)
+          · exact hko k' e
+        cases (s1.locks k).owner with
+        | none => exact hI1
+        | some o => exact hI1.keyEq (propT_keyEq _ _ _)
       · simp only [hl]
         exact inv_wakeUpFirst hk0 hko hg (by simpa using hl)
     · simp only [hexc]
@@ -1140,5 +1147,18 @@ theorem wakeUpFirst_waiters_length (s : State) (k k' : Nat) :
     · rfl
     · split <;> by_cases e : k' = k <;> simp [State.enqueue, setFutOf, e]
 
+
+end Asynkit.Lock
+
+namespace Asynkit.Lock
+
+theorem keyEq_waiters_length {s s' : State} (e : KeyEq s s') (k : Nat) :
+    (s'.locks k).waiters.length = (s.locks k).waiters.length := by
+  have := congrArg List.length (e.wl k)
+  simpa [State.wl] using this
+
+theorem propT_waiters_length (s : State) (f o k : Nat) :
+    ((propT s f o).locks k).waiters.length = (s.locks k).waiters.length :=
+  keyEq_waiters_length (propT_keyEq s f o) k
 
 end Asynkit.Lock
